@@ -300,7 +300,7 @@ Proof.
 Qed.
 
 Theorem decorate_log st s p : st_log (snd (decorate st s p)) = st_log st.
-Proof. unfold decorate. destruct (existsb _ _); reflexivity. Qed.
+Proof. unfold decorate. destruct (negb _ || existsb _ _); reflexivity. Qed.
 
 Theorem new_scope_log st p : st_log (new_scope st p) = st_log st.
 Proof. reflexivity. Qed.
@@ -1155,7 +1155,7 @@ Section RegWF.
   Lemma WF_decorate st s p : cbf (di_fn p) = di_cb p -> WF cbf st -> WF cbf (snd (decorate st s p)).
   Proof.
     intros Hcb W. unfold decorate.
-    destruct (existsb _ _); [exact W|]. cbn [snd].
+    destruct (negb _ || existsb _ _); [exact W|]. cbn [snd].
     set (d := length (st_decs st)).
     set (st1 := set_decs st _).
     set (F := fun c : scope => sc_set_decorators _ c).
